@@ -838,6 +838,70 @@ impl Group for C06Node {
                 ops.push(sims[oc].cpsign(oc, "new"));
             }
         }
+        if rng.chance(1, 5) {
+            // (round 10, b4) a multi-part payment with two parts on the SAME channel whose second part is in one view only
+            // (signed counterparty commitment, holder commitment not yet carrying it — or the other way round), a restart in
+            // exactly that window (restore_payments must rebuild max(holder view, counterparty view) per hash), then further
+            // parts of the same hash on the OTHER channels: up to, at the edge of and over what is left of the approved amount
+            // — relative to the true in-flight total and relative to each single view (what a restore that looks at one
+            // view only would leave room for)
+            let h = rng.below(NHASH as u64) as usize;
+            let amt_sat = *rng.pick(&[50_000u64, 100_000]);
+            let a = rng.below(nch as u64) as usize;
+            ops.push(format!("keysend {} {} {}", h, amt_sat * 1000, now));
+            let v1 = *rng.pick(&[amt_sat / 2, amt_sat / 4, 600]);
+            let v2 = *rng.pick(&[amt_sat / 4, amt_sat / 2 - 600, 600, amt_sat - v1]);
+            // part 1: in both views
+            sims[a].cp_out.push((h, v1, 500));
+            sims[a].h_out.push((h, v1, 500));
+            ops.push(format!("cprevoke {}", a));
+            ops.push(sims[a].cpsign(a, "new"));
+            ops.push(sims[a].hval(a, "new"));
+            ops.push(format!("revoke {}", a));
+            // part 2: in one view only
+            let cp_ahead = rng.chance(2, 3);
+            if cp_ahead {
+                sims[a].cp_out.push((h, v2, 500));
+                ops.push(format!("cprevoke {}", a));
+                ops.push(sims[a].cpsign(a, "new"));
+            } else {
+                sims[a].h_out.push((h, v2, 500));
+                ops.push(sims[a].hval(a, "new"));
+                ops.push(format!("revoke {}", a));
+            }
+            if rng.chance(5, 6) {
+                ops.push("restart".into());
+            }
+            // further parts elsewhere
+            let mut used = v1 + v2;
+            for k in 1..nch {
+                let b = (a + k) % nch;
+                let left = amt_sat.saturating_sub(used);
+                let v3 = *rng.pick(&[left, left + 222, left + 223, left + v2, left + v2 + 222, left + v2 + 223, (left / 2).max(600), 600]);
+                let v3 = v3.max(600);
+                if rng.chance(2, 3) {
+                    sims[b].cp_out.push((h, v3, 500));
+                    ops.push(format!("cprevoke {}", b));
+                    ops.push(sims[b].cpsign(b, "new"));
+                    // a refused request leaves the commitment as it was
+                    if v3 > left + 222 { sims[b].cp_out.pop(); }
+                } else {
+                    sims[b].h_out.push((h, v3, 500));
+                    ops.push(sims[b].hval(b, "new"));
+                    ops.push(format!("revoke {}", b));
+                    if v3 > left + 222 { sims[b].h_out.pop(); }
+                }
+                if v3 <= left + 222 { used += v3; }
+                if rng.chance(1, 4) {
+                    ops.push("restart".into());
+                }
+            }
+            for s in sims.iter_mut() {
+                if s.cp_out.len() + s.cp_inc.len() > 5 || s.h_out.len() + s.h_inc.len() > 5 {
+                    *s = Sim::default();
+                }
+            }
+        }
         while ops.len() < len + 1 {
             let c = rng.below(nch as u64) as usize;
             match rng.below(100) {
